@@ -419,6 +419,9 @@ func importanceOf(method string, s *dmpSnap) (map[string]float64, bool) {
 	if !p.OK {
 		return nil, false
 	}
+	if s.ReqW != nil {
+		p.W = s.ReqW
+	}
 	switch method {
 	case "weightedSum":
 		for _, c := range s.Crit {
